@@ -127,3 +127,20 @@ def ceil_div_operands(t):
         if all(c != 0 for c in A.values()) and freeze(padd(padd(A, B), {(): -1})) == freeze(num) and A and () not in A:
             return freeze(A), freeze(B)
     return None
+
+
+def minset(t):
+    """t as a minimum of polynomials: frozenset of frozen polys with t == min(set). min distributes over + and over subtraction of a single polynomial;
+    anything else is one polynomial (possibly over opaque atoms). max inside is left opaque."""
+    t = strip(t)
+    if t[0] == 'call' and t[1].rsplit('::', 1)[-1] == 'min' and len(t[2]) == 2:
+        return minset(t[2][0]) | minset(t[2][1])
+    if t[0] == 'bin' and t[1] in ARITH and ARITH[t[1]] == 'Add':
+        a, b = minset(t[2]), minset(t[3])
+        return frozenset(freeze(padd(dict(x), dict(y))) for x in a for y in b)
+    if t[0] == 'bin' and t[1] in ARITH and ARITH[t[1]] == 'Sub':
+        a, b = minset(t[2]), minset(t[3])
+        if len(b) == 1:
+            y = dict(next(iter(b)))
+            return frozenset(freeze(padd(dict(x), y, -1)) for x in a)
+    return frozenset([freeze(poly(t))])
